@@ -3,8 +3,12 @@
 #include <cstdlib>
 #include <exception>
 #include <unistd.h>
+#include <sys/wait.h>
 
-// Globals that libtest_util expects from the test binary.
+// Globals that libtest_util expects from the test binary (declared extern in test/util/setup_common.h).
+extern const std::function<void(const std::string&)> G_TEST_LOG_FUN;
+extern const std::function<std::vector<const char*>()> G_TEST_COMMAND_LINE_ARGUMENTS;
+extern const std::function<std::string()> G_TEST_GET_FULL_NAME;
 const std::function<void(const std::string&)> G_TEST_LOG_FUN{};
 static std::vector<std::string> g_vfh_args;
 namespace vfh { std::vector<std::string>& TestArgs() { return g_vfh_args; } }
@@ -68,6 +72,25 @@ void InstallAbortHandlers()
     std::set_terminate(OnTerminate);
     std::signal(SIGABRT, OnSignal); std::signal(SIGSEGV, OnSignal); std::signal(SIGFPE, OnSignal);
 }
+
+bool ForkChild(size_t test_index)
+{
+    std::cout.flush();
+    pid_t pid = fork();
+    if (pid < 0) { std::cerr << "fork failed\n"; std::exit(2); }
+    if (pid == 0) { R() = Reporter{}; R().cur_test = test_index; return true; }
+    int status = 0;
+    waitpid(pid, &status, 0);
+    if (!(WIFEXITED(status) && (WEXITSTATUS(status) == 0 || WEXITSTATUS(status) == 3))) {
+        // the child died without reporting (exit code 3 = it already printed an abort line)
+        UniValue o(UniValue::VOBJ);
+        o.pushKV("kind", "abort"); o.pushKV("test", (uint64_t)test_index); o.pushKV("step", 0);
+        o.pushKV("action", UniValue::VNULL); o.pushKV("why", "child process ended abnormally, status " + std::to_string(status));
+        Emit(o);
+    }
+    return false;
+}
+void ExitChild() { std::cout.flush(); _exit(0); }
 
 void ForEachLine(const std::string& path, const std::function<void(size_t, const UniValue&)>& fn)
 {
